@@ -66,10 +66,12 @@ class St:
         self.env = {}
         self.bufs = {}
         self.trace = []
+        self.edited = None
 
     def copy(self):
         s = St(self.L, self.m)
         s.pos, s.fail, s.opened = self.pos, self.fail, self.opened
+        s.edited = self.edited
         s.env = dict(self.env)
         s.bufs = {k: dict(v) for k, v in self.bufs.items()}
         s.trace = list(self.trace)
@@ -183,6 +185,11 @@ class Loader:
                         o0, o1 = strip_casts(a0["obj"]), strip_casts(a1["obj"])
                         if o0.get("vid") is not None and o0.get("vid") == o1.get("vid"):
                             return [(("string", o0["vid"]), st)]
+                if len(args) == 1:
+                    # copy / move of a string the model already tracks (`return content;`)
+                    vals = self.ev(fn, args[0], st)
+                    if vals and all(isinstance(v_, tuple) and v_[:1] == ("string",) for v_, _ in vals):
+                        return vals
                 raise AnalysisBroken("loader model: unrecognised string construction at line %s" % e.get("l"))
             if len(args) == 1:
                 return self.ev(fn, args[0], st)
@@ -449,8 +456,34 @@ class Loader:
             return [("return", s, v) for v, s in self.ev(fn, n["e"], st)]
         if k == "throw":
             return [("throw", st, self.prog.T(fn, n.get("tt")) if n.get("tt") is not None else "rethrow")]
-        if k in ("while", "for", "do", "rangefor", "switch", "try"):
-            raise AnalysisBroken("loader model: statement kind %r at line %s (loops in the loader are not modelled)" % (k, n.get("l")))
+        if k in ("while", "for", "do", "rangefor"):
+            # loops are not interpreted.  A loop that writes to the text read from the file (or to a buffer holding it) makes the result
+            # something else than the file's bytes: recorded, and reported when that text is returned.  A loop that touches neither the
+            # stream nor the text has no effect on what the model tracks.
+            written = set()
+            stream_used = False
+            for x in walk(n):
+                if x.get("k") == "assign":
+                    written.add(strip_casts(x["lhs"]).get("vid"))
+                    for y in walk(x["lhs"]):
+                        if y.get("k") == "ref":
+                            written.add(y.get("vid"))
+                if x.get("k") == "call" and x.get("obj") is not None and x.get("name") in (
+                        "erase", "replace", "insert", "push_back", "pop_back", "append", "assign", "resize", "clear", "operator[]", "at", "operator+=", "swap"):
+                    for y in walk(x["obj"]):
+                        if y.get("k") == "ref":
+                            written.add(y.get("vid"))
+                if x.get("k") == "ref" and isinstance(st.env.get(x.get("vid")), tuple) and st.env[x["vid"]][:1] == ("stream",):
+                    stream_used = True
+            if stream_used:
+                raise AnalysisBroken("loader model: the stream is used inside a loop at line %s (not modelled)" % n.get("l"))
+            texts = [vid for vid in written if isinstance(st.env.get(vid), tuple) and st.env[vid][:1] in (("string",), ("buf",))] + [vid for vid in written if vid in st.bufs]
+            if texts:
+                st = st.copy()
+                st.edited = "the text read from the file is rewritten in a loop at line %s before it is returned" % n.get("l")
+            return [("normal", st, None)]
+        if k in ("switch", "try"):
+            raise AnalysisBroken("loader model: statement kind %r at line %s is not modelled" % (k, n.get("l")))
         # expression statement
         return [("normal", s, None) for _, s in self.ev(fn, n, st)]
 
@@ -476,6 +509,8 @@ class Loader:
         for kind, s, v in leaves:
             if kind == "throw":
                 res.append({"kind": "throw", "type": v})
+            elif kind == "return" and isinstance(v, tuple) and v[0] == "string" and s.edited:
+                res.append({"kind": "other", "what": s.edited})
             elif kind == "return" and isinstance(v, tuple) and v[0] == "string":
                 if v[1] is None:
                     res.append({"kind": "bytes", "start": None, "n": C(0), "pad": C(0)})
